@@ -1,5 +1,6 @@
 import itertools
-from checks import osfam
+from checks import osfam, concfam
+import vlib
 GUARDS = {"TimelyPurge", "ImmediateWhenZero", "NeverPurgesWhenDisabled", "Invariant.Inv"}
 def run(tier, seed):
     q = tier == "quick"
@@ -33,9 +34,40 @@ def run(tier, seed):
             step = 2 * (delay + 1) + 2
             runs.append({"args": ["--c18", pat, "--step", str(step)] + extra, "env": {"MIMALLOC_PURGE_DELAY": str(delay), "MIMALLOC_PURGE_DECOMMITS": str(dec), "MIMALLOC_ARENA_PURGE_MULT": "1", "MIMALLOC_ARENA_RESERVE": "65536"},
                          "tag": "d%d.dec%d.m1.%s.tiny%s" % (delay, dec, pat, ".mid" if extra else ""), "build": "rel" if not extra else "dbg"})
-    return osfam.run_os("C18", tier, seed, runs, builds=["rel", "dbg"], own_guards=GUARDS, crash_decisive=False,
-                        group=6,
-                        extra_cov={"purge_delay": [-1, 0, 5, 10], "purge_decommits": [0, 1], "arena_purge_mult": [1, 10],
-                                   "patterns": ["pages", "segments", "all", "huge"], "arena_configs": [a for a, _ in arenas], "configs_run": len(runs)},
-                        assumptions=["time is the virtual clock of the shim; the ordinary activity after T0 is 12 rounds of allocate / free / non-forced mi_collect of size classes "
-                                     "not used before, with the clock advanced by 2*(delay*mult+purge_extend_delay) between calls; units freed by the activity itself and units inside page areas are exempt"])
+    # more arenas than the visit budget of the purge schedule, the arenas of low index have a due purge at every visit (the liveness
+    # counterexample TLC found in MiPurge with Variant "no_rotation"; /repo 8ff5922)
+    for delay, dec, mult in itertools.product((5, 10), (1, 0), (1,) if q else (1, 10)):
+        step = 2 * (delay * mult + 1) + 2
+        runs.append({"args": ["--c18", "starve", "--step", str(step)], "env": {"MIMALLOC_PURGE_DELAY": str(delay), "MIMALLOC_PURGE_DECOMMITS": str(dec), "MIMALLOC_ARENA_PURGE_MULT": str(mult), "MIMALLOC_ARENA_RESERVE": "65536"},
+                     "tag": "d%d.dec%d.m%d.starve.tiny" % (delay, dec, mult), "build": "rel" if dec else "dbg"})
+    assumptions = ["time is the virtual clock of the shim; the ordinary activity after T0 is 12 rounds of allocate / free / non-forced mi_collect of size classes "
+                   "not used before, with the clock advanced by 2*(delay*mult+purge_extend_delay) between calls; units freed by the activity itself and units inside page areas are exempt",
+                   "the purge schedule of the arenas is modelled in MiPurge (arenas x blocks x relative expiries; TLC: every reachable table satisfies MiArenaValid, and under "
+                   "ordinary activity every scheduled block is eventually purged); the arena tables of the running allocator are dumped at quiescent points and validated with the same MiArenaValid (ArenaTrace)",
+                   "the concurrent part (scheduled SC interleavings of threads that allocate, free and collect in shared arenas; thread exit) checks the schedule invariants at quiescent points only"]
+    V, cov = osfam.run_os("C18", tier, seed, runs, builds=["rel", "dbg"], own_guards=GUARDS, crash_decisive=True,
+                          group=6, finish=False,
+                          extra_cov={"purge_delay": [-1, 0, 5, 10], "purge_decommits": [0, 1], "arena_purge_mult": [1, 10],
+                                     "patterns": ["pages", "segments", "all", "huge", "starve"], "arena_configs": [a for a, _ in arenas], "configs_run": len(runs)})
+    # the schedule under concurrency: a purge scheduled while another thread visits the arenas must not be forgotten (/repo 7a0ea3c, 95404ba);
+    # arena dumps at the quiescent points of scheduled executions (Arena.GlobalCoversArenas, Arena.PurgeScheduled)
+    jobs = [{"prog": "arena", "strategy": "random", "runs": (150, 1500), "args": ["--rate", "3"]},
+            {"prog": "arena", "strategy": "pct", "runs": (60, 800), "args": []},
+            {"prog": "exit", "strategy": "random", "runs": (60, 800), "args": ["--rate", "3"]},
+            {"prog": "exit", "strategy": "random", "runs": (40, 600), "args": ["--size", "600000", "1048576"]}]
+    V, cov2 = concfam.run_conc("C18", tier, seed, jobs, set(), mc=("MiPurge", ("MiPurge_mc.cfg", "MiPurge_mc.cfg")), guided_progs=(), V=V, finish=False, crash_decisive=False)
+    cov["purge_schedule_model"] = {"module": "MiPurge", "safety_states": cov2.get("states"), "safety_config": "MiPurge_mc.cfg"}
+    for cfgname in (("MiPurge_live.cfg",) if q else ("MiPurge_live.cfg", "MiPurge_live4.cfg")):
+        r = vlib.tlc_mc("MiPurge", cfgname, workers=8, timeout=1700, coverage=False)
+        if r["violation"]:
+            raise vlib.InfraError("MiPurge/%s: the model of the purge schedule violates EventuallyPurged (specification error or the code changed):\n%s" % (cfgname, r["out"][-3000:]))
+        cov["purge_schedule_model"][cfgname] = {"distinct_states": r["distinct"], "property": "EventuallyPurged under WF(Tick), WF(non-forced collect)"}
+    r = vlib.tlc_mc("MiPurgeConc", "MiPurgeConc_mc.cfg" if q else "MiPurgeConc_mc_thorough.cfg", workers=8, timeout=3000, coverage=False)
+    if r["violation"]:
+        raise vlib.InfraError("MiPurgeConc: the model of the concurrent purge schedule violates its invariants (specification error or the code changed):\n%s" % r["out"][-3000:])
+    cov["purge_schedule_model"]["MiPurgeConc"] = {"distinct_states": r["distinct"], "invariants": ["Quiescent", "NeverPurgeInUse"], "config": "MiPurgeConc_mc.cfg" if q else "MiPurgeConc_mc_thorough.cfg"}
+    cov["concurrent_part"] = {k: cov2[k] for k in ("traces_validated_against_impl", "trace_events_validated", "programs", "strategies") if k in cov2}
+    cov["arena_dumps_validated"] = cov.get("arena_dumps_validated", 0) + cov2.get("arena_dumps_validated", 0)
+    return V.finish("model_checking", cov, assumptions=assumptions + [
+        "TLC 1.8.0 and CommunityModules trusted; the OS shim reports each mmap/munmap/mprotect/madvise call faithfully (it performs the real call unless the fault plan refuses it)",
+        "MADV_HUGEPAGE is answered without reaching the kernel; the clock is virtual"])
